@@ -81,6 +81,12 @@ func (d *dspec) build() *triple.Triple {
 			panic(err)
 		}
 		o = triple.NewLiteralObject(l)
+	case 5:
+		l, err := literal.DefaultBuilder().Build(literal.Text, string([]byte{'0' + d.ob - 'a'}))
+		if err != nil {
+			panic(err)
+		}
+		o = triple.NewLiteralObject(l)
 	case 3:
 		op, err := predicate.NewImmutable(string([]byte{d.ob}))
 		if err != nil {
@@ -119,7 +125,7 @@ func dtriples(ds []*dspec) []*triple.Triple {
 // val is the value of a binding: a node, a predicate, a text literal, a time,
 // an extracted id or type string, or an int64 literal.
 type val struct {
-	kind int // 0 node, 1 predicate, 2 text literal, 3 time anchor, 4 one-byte string (ID), 5 the string "/u" (TYPE), 6 int64 literal, 7 NULL
+	kind int // 0 node, 1 predicate, 2 text literal, 3 time anchor, 4 one-byte string (ID), 5 the string "/u" (TYPE), 6 int64 literal, 7 NULL, 8 text literal holding the digit '0'+b-'a'
 	b    byte
 	pk   int // predicate kind / anchor for kind 1 and 3
 	pa   int
@@ -179,6 +185,15 @@ func cellIs(c *table.Cell, v val) bool {
 			return false
 		}
 		return t[0] == v.b
+	case 8:
+		if c.L == nil {
+			return false
+		}
+		t, err := c.L.Text()
+		if err != nil || len(t) != 1 {
+			return false
+		}
+		return t[0] == '0'+v.b-'a'
 	case 3:
 		return c.T != nil && c.T.Equal(anchors[v.pa])
 	case 4:
